@@ -979,7 +979,21 @@ fn str_of(r: &Res) -> Option<String> {
 }
 
 /// Check one call in both forms plus the defining equations that relate it to other built-ins.
+/// signalling NaNs cannot be written as a literal (`0.0 / 0.0` is quiet) and libm treats them
+/// differently from quiet ones (pow(sNaN, 0) is NaN, pow(qNaN, 0) is 1): every NaN operand is
+/// replaced by the quiet NaN so that model, literal form and bound form see the same value
+fn quiet_nans(v: &V) -> V {
+    match v {
+        V::F(f) if f.is_nan() => V::F(f64::NAN),
+        V::List(l) => V::List(l.iter().map(quiet_nans).collect()),
+        V::Map(m) => V::Map(m.iter().map(|(k, x)| (k.clone(), quiet_nans(x))).collect()),
+        o => o.clone(),
+    }
+}
+
 pub fn check_call(c: &Call, sub: &str, acc: &mut Acc) -> Vec<Failure> {
+    let quieted = Call { func: c.func, method: c.method, this: quiet_nans(&c.this), args: c.args.iter().map(quiet_nans).collect() };
+    let c = &quieted;
     let e = model(c);
     let canon = c.canon();
     let (nt, why) = nontrivial(c, &e);
